@@ -1008,3 +1008,38 @@ func (e *Event) Wait(s *Sim) {
 		s.Block(WHarness, e, "event")
 	}
 }
+
+// Pulse is a harness-level broadcast: Wait parks the caller until the next
+// Signal.
+type Pulse struct{ waiters []*Task }
+
+// Wait parks until the next Signal.
+func (p *Pulse) Wait(s *Sim) {
+	p.waiters = append(p.waiters, s.cur)
+	s.Block(WHarness, p, "pulse")
+}
+
+// Signal wakes every task parked in Wait.
+func (p *Pulse) Signal(s *Sim) {
+	for _, w := range p.waiters {
+		s.Wake(w)
+	}
+	p.waiters = nil
+}
+
+// SleepToNextTimer parks the caller until the earliest pending timer has
+// fired (virtual time jumps there once nothing else is runnable).  It reports
+// false if no timer is pending.
+func (s *Sim) SleepToNextTimer() bool {
+	for len(s.timers) > 0 && s.timers[0].stopped {
+		s.timers.pop()
+	}
+	if len(s.timers) == 0 {
+		return false
+	}
+	at := s.timers[0].at
+	me := s.cur
+	s.AddTimer(at, func() { s.Wake(me) })
+	s.Block(WSleep, nil, "next timer")
+	return true
+}
